@@ -9,6 +9,7 @@ import (
 	"math/rand/v2"
 	"sort"
 	"strings"
+	"sync"
 
 	"github.com/ohler55/slip"
 
@@ -392,6 +393,7 @@ func showVal(v ref.Val) string {
 }
 
 func exec(x *fw.Ctx, c Case) {
+	ensureTables()
 	curBind = c.Bind
 	defer func() { curBind = "" }()
 	if c.Bind != "" {
@@ -726,7 +728,14 @@ var (
 	probes       []probe
 )
 
-func init() {
+// The tables are built on first use, not at package initialisation: the full
+// binary is also started once per session by checks that work through
+// sub-processes (C20, C09, C17) and must start fast.
+var tablesOnce sync.Once
+
+func ensureTables() { tablesOnce.Do(buildTables) }
+
+func buildTables() {
 	for e := int64(3); e <= 65; e++ {
 		p := pow(10, e)
 		for _, x := range []*big.Int{p, addi(p, -1), addi(p, 1), new(big.Int).Mul(p, big.NewInt(11)), addi(new(big.Int).Mul(p, big.NewInt(20)), 1),
@@ -856,10 +865,12 @@ func englishRandom(r *rand.Rand) Case {
 }
 
 func nCases(tier string) int {
+	ensureTables()
 	return romanBlock + 2*englishSmall + 2*len(englishBig) + intGridSize(tier) + len(probes) + mixCount(tier) + len(extraCases) + englishRandomCount(tier) + randomCount(tier)
 }
 
 func gen(r *rand.Rand, i int, tier string) Case {
+	ensureTables()
 	if i < romanBlock {
 		ctl := "~@R"
 		if i%2 == 1 {
